@@ -170,11 +170,6 @@ func (dec *fecDecoder) decode(in fecPacket) (recovered [][]byte) {
 		dec.autoTune.Sample(false, in.seqid())
 	}
 
-	// check seqid < paws to avoid invalid packets
-	if in.seqid() >= dec.paws {
-		return nil
-	}
-
 	// check if the packet type matches the current FEC parameters
 	if in.seqid()%uint32(dec.shardSize) < uint32(dec.dataShards) {
 		if in.flag() != typeData { // expect typeData
@@ -221,6 +216,14 @@ func (dec *fecDecoder) decode(in fecPacket) (recovered [][]byte) {
 			// to avoid permanent blocking when detected parameters match current ones
 			dec.shouldTune = false
 		}
+		return nil
+	}
+
+	// check seqid < paws to avoid invalid packets. The wrap value is derived from
+	// this decoder's own group size, so this test comes after the detection of
+	// the peer's: a peer with another group size legitimately uses ids at or
+	// above it, and detection must not pause while it does.
+	if in.seqid() >= dec.paws {
 		return nil
 	}
 
